@@ -59,3 +59,5 @@ PROP["level_text"] += "; the linked-log entry codec functions are translated fro
 PROP["trusted"] = ['translator gen/golite.go (Go leaf functions -> terms of the GoLite fragment, re-run on every check) and the semantics coq/GoLite.v (fixed-width wrap-around, panics on bad index / slice / shift / division, fuel for loops and calls; capacity identified with length; out-parameters for slices written through; aliasing of two arguments not detected) - DESIGN.md section 10a; exercised by the vm_compute examples of the property file'] + list(PROP.get("trusted", []))
 PROP["technique"] += " + (*LinkedLog).ReadWithSize itself (limit, bounds check, positioned read, the record's own length prefix, pointer to the previous record, decompression, entry decoder) translated on every run and proved equal to the model's read_with_size for every file, offset and size"
 PROP["level_text"] += "; the record reader (*LinkedLog).ReadWithSize - the function whose length-prefix handling was repaired on the pinned tree - is translated from the Go source on every run together with decompressIndexes and proved, for every file, offset and size, to be the model's read_with_size (the file, binary.Uvarint, DecompressZstd and indexes.OffsetAndSize.FromBytes are oracles; the last one is itself translated and proved in C01): C06_translated_ReadWithSize_is_read_with_size"
+PROP["technique"] += " + (*GsfaReader).Get itself (the walk along the chain with its limit) translated on every run and proved equal to the model's walk bwalk"
+PROP["level_text"] += "; the chain walk (*GsfaReader).Get is translated from the Go source on every run (the record reader as an oracle answering as read_with_size, which the translated ReadWithSize is proved equal to) and proved, for every file and head pointer, to return what the model's bwalk returns when the limit is not reached - every entry of the chain, newest first - and the walk cut at the limit otherwise (C06_translated_Get_is_the_models_walk)"
